@@ -2,6 +2,7 @@ package c09
 
 import (
 	"fmt"
+	"github.com/thushan/olla/internal/core/domain"
 	"time"
 
 	"github.com/thushan/olla/verifharness/backend"
@@ -69,5 +70,6 @@ func (s *fullStack) discover(name string) error {
 	return fmt.Errorf("no listing fetched for %s after recovery", name)
 }
 
-func (s *fullStack) settle() { s.apply(); settleRegistry(s.w.Ctx(), s.w.Registry()) }
-func (s *fullStack) stop()   { s.w.Stop() }
+func (s *fullStack) settle()                   { s.apply(); settleRegistry(s.w.Ctx(), s.w.Registry()) }
+func (s *fullStack) stop()                     { s.w.Stop() }
+func (s *fullStack) reg() domain.ModelRegistry { return s.w.Registry() }
